@@ -63,8 +63,8 @@ int main(int argc, char **argv) {
 	SP[1] = (space){ .a = A_inline, .minlen = 1, .maxlen = 2, .pre = A_pre, .post = A_post, .ctxs = CTX8, .nctx = 8, .fmts = TEXT_FORMATS, .nfmt = 7, .exts = MODES, .next = 2 };
 	SP[2] = (space){ .a = A_macro, .minlen = 1, .maxlen = 2, .fmts = TEXT_FORMATS, .nfmt = 7, .exts = EXTSETS, .next = 8 };
 	SP[3] = (space){ .a = A_linecore, .minlen = 4, .maxlen = 4, .fmts = TEXT_FORMATS, .nfmt = 7, .exts = MODES, .next = 2 };
-	SP[4] = (space){ .a = A_lines, .minlen = 4, .maxlen = 4, .fmts = HL, .nfmt = 2, .exts = MODES, .next = 2 };
-	SP[5] = (space){ .a = A_linecore, .minlen = 5, .maxlen = 5, .fmts = HL, .nfmt = 2, .exts = MODES, .next = 2 };
+	SP[4] = (space){ .a = A_lines, .minlen = 4, .maxlen = 4, .fmts = HL, .nfmt = 2, .exts = MODES, .next = 1 };
+	SP[5] = (space){ .a = A_linecore, .minlen = 5, .maxlen = 5, .fmts = HL, .nfmt = 1, .exts = MODES, .next = 2 };
 	SP[6] = (space){ .a = A_inline, .minlen = 3, .maxlen = 3, .pre = A_pre, .post = A_post, .ctxs = CTX4, .nctx = 4, .fmts = TEXT_FORMATS, .nfmt = 7, .exts = MODES, .next = 2 };
 	k_level L[] = {
 		{ "q_lines3", space_count(&SP[0]), run0, desc0, "qt", "all line sequences len<=3 over the full line alphabet x 7 writers x {MMD,compat}" },
@@ -72,8 +72,8 @@ int main(int argc, char **argv) {
 		{ "q_macro2", space_count(&SP[2]), run2, desc2, "qt", "macro fragments alone and in ordered pairs x 7 writers x 8 extension sets" },
 		{ "t_lines4core", space_count(&SP[3]), run3, desc3, "t", "one-per-kind lines len 4 x 7 writers x {MMD,compat}" },
 		{ "t_inline3", space_count(&SP[6]), run6, desc6, "t", "inline sequences len 3 x 4 contexts x 7 writers x {MMD,compat}" },
-		{ "t_lines4full", space_count(&SP[4]), run4, desc4, "t", "full line alphabet len 4 x {html,latex} x {MMD,compat}" },
-		{ "t_lines5core", space_count(&SP[5]), run5, desc5, "t", "one-per-kind lines len 5 x {html,latex} x {MMD,compat}" },
+		{ "t_lines4full", space_count(&SP[4]), run4, desc4, "t", "full line alphabet len 4 x {html,latex} x MMD" },
+		{ "t_lines5core", space_count(&SP[5]), run5, desc5, "t", "one-per-kind lines len 5 x html x {MMD,compat}" },
 	};
 	return k_main(argc, argv, L, sizeof L / sizeof L[0]);
 }
